@@ -9,7 +9,8 @@
 (*   above  canary words above the callee's frame intact                    *)
 (*   can    canaries around every registered caller buffer intact           *)
 (*   inp    every registered input buffer byte-identical                    *)
-(*   st     number of changed bytes in the library's writable statics       *)
+(*   st     number of changed bytes in the library's writable statics;      *)
+(*          stx = those not belonging to a dispatch binding                 *)
 (* The spec cannot see registers; it states the contract and every trace    *)
 (* action of every trace module evaluates it on every event.                *)
 (***************************************************************************)
@@ -21,5 +22,6 @@ ABIOk(o) == o.fault # 0 \/ (o.cs = 0 /\ o.rsp = 0 /\ o.df = 0 /\ o.mx = 1 /\ o.f
 NoFault(o) == o.fault = 0
 MemOk(o) == o.fault = 0 /\ o.can = 1 /\ o.inp = 1
 \* C18: writable statics only where the action is allowed to (first-call binding, self-test verdict)
-StaticOk(o, mayBind) == o.st = 0 \/ mayBind
+\* (stx = changed bytes that are not part of a word now holding the address of a library function)
+StaticOk(o, mayBind) == o.st = 0 \/ (mayBind /\ o.stx = 0)
 =============================================================================
